@@ -192,6 +192,16 @@ def groups_for(pid, tr, wd, rng):
         honest("hbig", [7, 300, 65535, 256], [7, 300, 65535], 3, 20 if not big else 100)
         honest("few", [1, 2, 3, 4], [1, 3], 3, 16 if not big else 100, expect_all=False, expect_none=True, deadline=120)
         honest("many", [1, 2, 3, 4], [1, 2, 3, 4], 3, 30 if not big else 300, expect_all=False, deadline=150)
+        # a message handled exactly BETWEEN two steps of Synchronize (the model's Snap / Check / Query / Done are separate actions): the
+        # member is held at one of its debug lines (decision taken / completion) while everything a held-back sender has for it arrives
+        cfgm = dict(name="manyg", Members=[1, 2, 3, 4], Starters=[1, 2, 3, 4], E=3)
+        gcases = []
+        for key in ("Learned about", "Synchronized on"):
+            for p_ in (1, 2, 3, 4):
+                for x in (1, 2, 3, 4):
+                    if x != p_ and (big or (p_ + x) % 2 == 1 or key == "Learned about"):
+                        gcases.append(case(cfgm, seed=rng.randrange(1 << 30), policy="gate:%d:%d:%s" % (p_, x, key), deadline=200, interval=4000))
+        groups.append(dict(cfg=cfgm, expect_all=False, expect_none=False, cases=gcases))
         # Byzantine member 4 (+ outsider 9); three honest starters, E = 3 (the Byzantine member is one too many) and E = 4 (it is needed)
         for name, e, lstar in (("bz3", 3, [1, 2, 3]), ("bz4", 4, [1, 2, 3, 4])):
             cfg = dict(name=name, Members=[1, 2, 3, 4, 5], Starters=[1, 2, 3], Byz=[4], NonMembers=[9], E=e,
